@@ -43,6 +43,7 @@ def shards(tier):
     sh = [dict(kind="single", tier=tier, idx=list(range(i, len(L), n))) for i in range(n)]
     sh += [dict(kind="paired", tier=tier, part=i, parts=8) for i in range(8)]
     sh += [dict(kind="cli", tier=tier, part=i, parts=4) for i in range(4)]
+    sh += [dict(kind="multicore", tier=tier, part=i) for i in range(3)]
     return sh
 
 
@@ -60,9 +61,42 @@ def mtuple(matches):
     return out
 
 
+def run_multicore_shard(d):
+    """Several cores: the reverse-complemented figure and the ' rc' names must be those of the one-core run under every
+    schedule with <= 1 deviation (statistics are merged across workers; a worker may have reverse-complemented nothing)."""
+    from .. import mcharness
+
+    res = dict(evals=0, nontrivial=0, rc_chosen=0, ties=0, negative=0, viol=common.Viols(cap=3), samples=[], cli_runs=0)
+    wd = clih.fresh_dir("c16mc")
+    A = "ACGTACGGTT"
+    fwd = ["CATCATGTGTGTCATT" + A, "GGGTTTACACACTTGG" + A + "AC", "TATATACCGGTTAACC"]
+    rcs = [refops.revcomp(x) for x in fwd[:2]]
+    # first chunk(s) hold reads that need the reverse complement, the last ones hold reads that do not (and the other way round)
+    orders = [rcs + rcs + fwd + fwd, fwd + fwd + rcs + rcs, [rcs[0], fwd[0], fwd[1], fwd[2], rcs[1], fwd[0]]]
+    seqs = orders[d["part"]]
+    recs = [(f"r{i}", s_, uq(len(s_) % 60)[: len(s_)].ljust(len(s_), "I")) for i, s_ in enumerate(seqs)]
+    inp = os.path.join(wd, "in.fq")
+    clih.write_text(inp, clih.fastq_text(recs))
+
+    def argv(dd, cores):
+        return ["-j", str(cores), "--buffer-size", "170", "--revcomp", "-a", f"ad={A}", "--json", os.path.join(dd, "report.json"),
+                "-o", os.path.join(dd, "out.fq"), inp]
+
+    n, fails = mcharness.explore_vs_serial(argv, wd, bound=1, workers=2, compare_reports=True)
+    res["cli_runs"] += n
+    res["evals"] += n * len(recs)
+    res["nontrivial"] += n
+    for sched, fail in fails:
+        res["viol"].append(("multicore:count", "with 2 cores: " + fail, dict(schedule=list(sched), reads=seqs[:3])))
+    clih.rmtree(wd)
+    return res
+
+
 def run_shard(d):
     if d["kind"] == "cli":
         return run_cli_shard(d)
+    if d["kind"] == "multicore":
+        return run_multicore_shard(d)
     from cutadapt.adapters import LinkedAdapter
     from cutadapt.info import ModificationInfo
     from cutadapt.modifiers import AdapterCutter, ReverseComplementer, PairedReverseComplementer
